@@ -46,7 +46,10 @@ def gen_config(g):
 
 
 def rand_n(g):
-    return g.randint(1, 40) if g.random() < 0.94 else g.choice([100, 257, 1000, 2500])
+    r = g.random()
+    if r < 0.1:
+        return 1
+    return g.randint(1, 40) if r < 0.94 else g.choice([100, 257, 1000, 2500])
 
 
 def gen_call(g, cfg, api, seed, mid=None):
@@ -59,8 +62,6 @@ def gen_call(g, cfg, api, seed, mid=None):
     rec = {"op": "call", "api": api, "seed": seed}
     if api == "lganm.new":
         spec = G.lganm_spec(g, p, cfg["seeds"], force_ranges=True)
-        if g.random() < 0.3:      # one explicit, one sampled
-            spec["means"] = enc(G.rand_vec(g, p, -2, 2))
         spec.pop("seed")
         rec["m"] = {"id": None, "type": "lganm", "spec": spec}
     elif api == "lganm.sample":
